@@ -3,4 +3,4 @@
 # property in private copies (try_mutant_iso.sh), <jobs> at a time; prints one line per change: CAUGHT / MISSED.
 jobs=${1:-4}; pat=${2:-C}
 out=/tmp/regress_seeded; mkdir -p $out
-ls -d /verif/seeded/${pat}* | xargs -P $jobs -I{} bash -c 'd={}; n=$(basename $d); p=${n%%-*}; bash /verif/bin/try_mutant_iso.sh r_$n $d/patch.diff $p > '$out'/$n.log 2>&1; if grep -q "^VIOLATION" '$out'/$n.log; then echo "CAUGHT $n $(grep -c no-failing-input-found '$out'/$n.log)"; else echo "MISSED $n"; fi'
+ls -d /verif/seeded/${pat}* | xargs -P $jobs -I{} bash -c 'd={}; n=$(basename $d); p=${n%%-*}; bash /verif/bin/try_mutant_iso.sh r_$n $d/patch.diff $p > '$out'/$n.log 2>&1; if grep -q "patch does not apply" '$out'/$n.log; then echo "STALE $n (patch does not apply to HEAD)"; elif grep -q "^VIOLATION" '$out'/$n.log; then echo "CAUGHT $n $(grep -c no-failing-input-found '$out'/$n.log)"; else echo "MISSED $n"; fi'
